@@ -200,3 +200,22 @@ func pubWalk(t *Term, inh string, ro bool, pub map[int]bool) {
 		pubWalk(x, own, r, pub)
 	}
 }
+
+// MarkStarOperandsPublic: the operands a '*' width/precision reads are public by the statement of C02;
+// conservatively every top-level int operand of a format that holds a '*' is treated as public.
+func MarkStarOperandsPublic(pub map[int]bool, format []byte, ts []*Term) {
+	star := false
+	for _, c := range format {
+		if c == '*' {
+			star = true
+		}
+	}
+	if !star {
+		return
+	}
+	for _, t := range ts {
+		if t.K == "int" || t.K == "uint" {
+			pub[-t.ID] = true
+		}
+	}
+}
